@@ -20,6 +20,29 @@ static const Logogram& logo(impl::Lexicon& lx, const std::string& s)
    return lx.get_logogram(lx.get_string(util::word_view(reinterpret_cast<const char8_t*>(s.data()), s.size())));
 }
 
+// The logogram spelled `s` ("-" stands for the empty spelling), reached the way a client comes by logograms: there is one logogram
+// per spelling in a Lexicon, whichever constructor met the spelling first and whichever accessor hands it out.  The k-th time a
+// spelling is asked for, the route is the k-th of: the name of a calling convention, the logogram of the String (twice in a row: after
+// the convention exists), the language of a linkage, the String again, the convention of a transfer, a String interned by another
+// Lexicon (for the empty spelling: the convention of the natural C++ transfer), the String again.
+#include <map>
+static const Logogram& logo_by_route(impl::Lexicon& lx, const std::string& name)
+{
+   static std::map<std::string, unsigned> asked;
+   static impl::Lexicon guest;
+   const std::string s = name == "-" ? std::string() : name;
+   const auto w = util::word_view(reinterpret_cast<const char8_t*>(s.data()), s.size());
+   static const int pattern[] = { 1, 1, 0, 0, 2, 2, 0, 0, 3, 3, 4, 4, 0, 0 };
+   switch (pattern[asked[name]++ % 14]) {
+   case 1: return lx.get_calling_convention(w).name();
+   case 2: return lx.get_linkage(w).language();
+   case 3: return lx.get_transfer(lx.get_linkage(w), lx.get_calling_convention(w)).convention().name();
+   case 4: if (s.empty()) return impl::cxx_transfer().convention().name();
+           return lx.get_logogram(guest.get_string(w));
+   default: return lx.get_logogram(lx.get_string(w));
+   }
+}
+
 template<class V> static std::uintptr_t raw(V v) { return static_cast<std::uintptr_t>(v); }
 
 template<class Basic, class V>
@@ -105,8 +128,8 @@ int main(int argc, char** argv)
       const bool spec = kind == "s";
       try {
          if (op == "spec") {
-            if (spec) std::cout << raw(ilx.specifiers(Basic_specifier{logo(lx, a)})) << '\n';
-            else std::cout << raw(ilx.qualifiers(Basic_qualifier{logo(lx, a)})) << '\n';
+            if (spec) std::cout << raw(ilx.specifiers(Basic_specifier{logo_by_route(lx, a)})) << '\n';
+            else std::cout << raw(ilx.qualifiers(Basic_qualifier{logo_by_route(lx, a)})) << '\n';
          }
          else if (op == "dec") {
             std::uintptr_t v = std::stoull(a);
